@@ -187,6 +187,16 @@ PROPS = {
         text="For each listed document every byte offset is tried as the point of failure for all six readers, and for each (cue list, writer) pair every offset of the output for all five writers: complete for those documents; plus over-long lines and missing / uncreatable files.",
         note="Trusted: the failing reader / writer wrappers (40 lines).",
         design="5/C18", exhaustive_note=True),
+    "C19": P(
+        "TestC19", "exploration",
+        "case = (heterogeneous cue list over the public types, permutation of the five writers); list = metadata mixing SSA / STL (dates present or not) / TTML / WebVTT fields, 0..6 styles with random subsets of the 23 SSA attributes, TTML attributes, WebVTT style lines and parent links, 0..3 regions, 1..5 cues with style / region references, cue settings, SSA event fields, STL justification / position, 1..3 lines of 1..3 runs carrying SRT flags, WebVTT tag stacks, TTML attributes, STL flags, SSA override blocks, inline timestamps. "
+        "Per case: 50 in-process writes per format (alternating the same list and a freshly built one), the five writers in the drawn order, two different clock instants; a batch of the cases is re-written in 4 (thorough 8) fresh processes and compared by hash. Non-trivial = >=2 styles AND (SSA styles with different attribute sets OR WebVTT style lines over several styles); distinct = hash of the case.",
+        ["a writer that returns an error must return the same error every time (compared as output)",
+         "STL: bytes 224..236 of the GSI block (creation / revision date) may depend on the injectable clock when the metadata does not supply both dates; nothing else may"],
+        shards=(4, 16), technique="metamorphic / differential property testing: repeated writes in-process and in fresh processes compared byte for byte, writer-order permutations, clock variation, canonical pointer-preserving dump of the input before/after every write",
+        text="Determinism is decided by byte identity over repetitions (Go randomises map iteration per range statement, so in-process repetition exposes map-order dependence; fresh processes add new hash seeds); purity by comparing a canonical dump of the whole list, aliasing included, around every write.",
+        note="Trusted: the canonical dumper, sha256.",
+        design="5/C19"),
 }
 
 # Properties deliberately not claimed (reason each); anything else missing from PROPS is work in progress.
